@@ -187,6 +187,8 @@ PIE_PROPS = {
     "C20": {"fams": [("ROLE", 300, 3000, {"max_t": 4}), ("WF", 60, 600, {})], "curated": ["known_findings.jsonl"], "design": []},
 }
 
+EXTRA_UNIT = {"C15": "keys"}
+
 ASSUME_PIE = [
     "the harness (interpreter task, instrumented resource/checkers, recording tracker) reports faithfully what the library did",
     "TLC evaluates the specification correctly",
@@ -255,9 +257,10 @@ def run_pie_check(prop, tier, seed, replay):
             pr = dict(MC_DEFAULT)
             pr.update(MC_CONFIGS[sim_cfg])
             conf.append(conformance(tag, cfile, (pr["NT"], pr["NR"], pr["NV"], pr["NA"], pr["LEN"]), "TLC-simulated behaviours of " + sim_cfg))
-        cfile = os.path.join(WORK, "%s.confgen.jsonl" % tag)
-        gen_scenarios(spec["fams"][0][0], 60 if tier == "quick" else 800, seed * 1000 + 777, cfile, fixed=(4, 3, 3))
-        conf.append(conformance(tag, cfile, (4, 3, 4, 4, 3), "generated %s scenarios of fixed dimensions" % spec["fams"][0][0]))
+        if spec["fams"][0][0] != "IDENT":     # identity scenarios have their own dimensions (type twins)
+            cfile = os.path.join(WORK, "%s.confgen.jsonl" % tag)
+            gen_scenarios(spec["fams"][0][0], 60 if tier == "quick" else 800, seed * 1000 + 777, cfile, fixed=(4, 3, 3))
+            conf.append(conformance(tag, cfile, (4, 3, 4, 4, 3), "generated %s scenarios of fixed dimensions" % spec["fams"][0][0]))
     lines = None
     kfs_open = {(f["property"], f["finding"]): f for f in known_findings() if f["status"] == "open"}
     viol = [v for v in res["viol"] if v[3] == prop]
@@ -296,6 +299,22 @@ def run_pie_check(prop, tier, seed, replay):
         seen_kf.add(k[4])
         f = kfs_open[(k[3], k[4])]
         print("KNOWN-FINDING: property=%s %s (%s; e.g. scenario %s line %d)" % (prop, f["finding"], f["what"], k[2], k[1]))
+    unit_extra = None
+    if prop in EXTRA_UNIT and not replay:
+        suite = EXTRA_UNIT[prop]
+        utrace = os.path.join(WORK, "%s.unit.ndjson" % tag)
+        sh([os.path.join(BIN, "unit_run"), suite, "--seed", str(seed), "--out", utrace], timeout=600)
+        ures = run_unit_trace(utrace, os.path.join(WORK, "%s.unit.json" % tag), tag)
+        ulines = open(utrace).read().split("\n")
+        for v in [v for v in ures["viol"] if v[1] == prop]:
+            if ("unit", v[2]) in reported:
+                continue
+            reported.add(("unit", v[2]))
+            path = write_replay(prop, v[2], {"id": "%s-unit" % suite, "suite": suite, "seed": seed, "n": 1}, v[0], ulines[max(0, v[0] - 3):v[0]])
+            print("VIOLATION property=%s replay=%s" % (prop, path))
+            print("  formula=%s trace line=%d: %s" % (v[2], v[0], ulines[v[0] - 1][:300]))
+            rc = 1
+        unit_extra = {"suite": suite, "events": ures["events"], "evaluations": ures["evaluations"], "tlc": ures["tlc"]}
     evals = sum(r["cnt"].get(prop, 0) for r in res["runs"])
     nontrivial = sum(1 for r in res["runs"] if r["cnt"].get(prop, 0) > 0)
     fams = {}
@@ -307,6 +326,7 @@ def run_pie_check(prop, tier, seed, replay):
         "design_configs": design, "design_simulation": sim_stats,
         "trace_validation": res["tlc"],
         "conformance_with_operational_spec": conf,
+        "unit_suite": unit_extra,
         "model_drift": sum(len(c["drift"]) for c in conf),
         "traces_validated_against_impl": len(res["runs"]),
         "samples": [summarize_scn(s) for s in scns[:2]],
@@ -385,7 +405,7 @@ MC_CONFIGS = {
     "inj_2t2r": dict(Family="INJ", NR=2, Writer=[0, 2], Fs=[2], MaxSessions=2, MaxChanges=0),
     "inj_2t2r_bu": dict(Family="INJ", NR=2, Writer=[0, 2], Fs=[2], MaxSessions=3, MaxChanges=1, MaxBU=1),
     "role_2t1r": dict(Family="ROLE", NR=1, Fs=[2], MaxSessions=3, MaxChanges=2),
-    "role_2t2r": dict(Family="ROLE", NR=2, Fs=[2], MaxSessions=2, MaxChanges=1),
+    "role_2t2r": dict(Family="ROLE", NR=2, Writer=[0, 0], Fs=[2], MaxSessions=2, MaxChanges=1),
     "abort_2t1r": dict(Family="ABORT", Fs=[2], MaxSessions=3, MaxChanges=0),
     "abort_2t2r_gen": dict(Family="ABORT", NR=2, Writer=[0, 2], Fs=[2], MaxSessions=3, MaxChanges=0),
     "fault_2t1r": dict(Family="FAULT", RChks=["eqF"], Fs=[2], MaxSessions=2, MaxChanges=1),
@@ -453,7 +473,7 @@ def run_mc(name, overrides=None, workers=None, timeout=1800, simulate=None, extr
             f.write("  %s = %s\n" % (k, tla_val(params[k])))
         for k in ("Writer", "RChks", "OChks", "WChks", "Fs"):
             f.write("  %s <- MC%s\n" % (k, k))
-        f.write("INVARIANTS NoViolation BoundedStack ConsistentHaveOutput StoreWellFormed KnownOnly %s\nVIEW view\nCHECK_DEADLOCK FALSE\n" % extra_inv)
+        f.write("INVARIANTS NoViolation BoundedStack ConsistentHaveOutput StoreWellFormed RanksRespectEdges KnownOnly %s\nVIEW view\nCHECK_DEADLOCK FALSE\n" % extra_inv)
     md = os.path.join(d, "md_" + name)
     shutil.rmtree(md, ignore_errors=True)
     e = dict(os.environ)
@@ -615,7 +635,8 @@ def run_dag_check(prop, tier, seed, replay):
     if os.path.exists(out_file):
         os.remove(out_file)
     cfg = os.path.join(WORK, "DagTrace.cfg")
-    open(cfg, "w").write("SPECIFICATION Spec\nPOSTCONDITION Accepted\nCHECK_DEADLOCK FALSE\n")
+    open(cfg, "w").write("SPECIFICATION TSpec\nCONSTANTS\n  MaxNodes = 12\n  MaxOps = 0\n  Data = {1}\n  ReinsertMovesToBack = FALSE\n"
+                         "  EmitSequences = FALSE\nPOSTCONDITION Accepted\nCHECK_DEADLOCK FALSE\n")
     r = tlc("DagTrace", cfg, env={"TRACE": trace_file, "OUT": out_file}, workers=1, timeout=3000,
             metadir=os.path.join(WORK, "tlc_dagtrace_" + prop))
     if not r["ok"] or not os.path.exists(out_file):
@@ -626,6 +647,9 @@ def run_dag_check(prop, tier, seed, replay):
     rc = 0
     reported = set()
     lines = None
+    for d in res.get("drift", [])[:5]:
+        print("MODEL-DRIFT: sequence %s: the implementation and the model of the algorithm (DagPK.tla) disagree on %s at trace line %d"
+              % (seqs[d[0] - 1]["id"], d[2], d[1]))
     for v in viol:
         sid = seqs[v[0] - 1]["id"]
         if (sid, v[3]) in reported:
@@ -652,6 +676,7 @@ def run_dag_check(prop, tier, seed, replay):
         "events_validated": res["events"], "design_configs": design, "design_simulation": sim,
         "trace_validation": {"distinct": r["distinct"], "generated": r["generated"], "wall_s": r["wall_s"]},
         "violations_other_property_seen": len(res["viol"]) - len(viol), "exhaustive": False,
+        "sequences_conforming_to_DagPK": res["cnt"]["seqs"] - len(res.get("drift", [])), "model_drift": len(res.get("drift", [])),
     }
     write_evidence(prop, tier, seed, "model_checking", coverage, time.time() - t0, len(reported),
                    ["the harness dag_run reports faithfully what pie_graph::DAG returned", "TLC evaluates the specification correctly",
